@@ -181,8 +181,17 @@ class Recorder:
                 tag=e.get('tag'), **p)
 
     def _on_send(self, e: dict, data: bytes) -> None:
-        p = self.proj_msg(data)
         mc = e['dst'] in (simnet.MDNS_ADDR, simnet.MDNS_ADDR6)
+        if mc:
+            # one multicast goes out once per respond socket (IPv4 and IPv6 group on a dual-stack instance): the copies of one
+            # transmission -- same octets, same instant, another socket -- are one event of the trace
+            key = (self.net.now(), data)
+            if getattr(self, '_last_mc', None) is not None and self._last_mc[0] == key and e['sock'] not in self._last_mc[1]:
+                self._last_mc[1].add(e['sock'])
+                self.mc_copies = getattr(self, 'mc_copies', 0) + 1
+                return
+            self._last_mc = (key, {e['sock']})
+        p = self.proj_msg(data)
         if p is None:
             self.ev('send', bad=True, sock=e['sock'], mc=mc, dst=self.it.nb(e['dst']), port=e['port'], raw=data.hex()[:400])
             return
@@ -613,6 +622,15 @@ def gen_query(rng: random.Random, svcs: List[dict], focus: str) -> dict:
 
 def gen_resp(rng: random.Random, sid: str, focus: str, thorough: bool = False) -> dict:
     svcs = gen_services(rng)
+    # one IPv4 socket, a listen socket plus a respond socket, or the dual-stack set (an IPv6 listen socket that also hears IPv4,
+    # one respond socket per family; the peers are then IPv6 hosts or IPv4 hosts seen under their v4-mapped addresses)
+    layout = rng.choice(['single', 'single', 'split', 'dual'])
+    if layout == 'dual':
+        # finding D22: records read from an IPv6 socket carry the scope of the datagram's source, the host's own AAAA records do
+        # not, so the two never compare equal (recency, known-answer suppression).  The random histories on the dual-stack layout
+        # therefore use services with IPv4 addresses only; the finding has its own directed histories (d22_scenarios).
+        for sp in svcs:
+            sp['addrs'] = {'v6': 'v4', 'dual': 'two4'}.get(sp['addrs'], sp['addrs'])
     steps: List[dict] = []
     t = 0
     busy: Dict[int, int] = {}        # sid -> instant until which its announcement / goodbye task runs
@@ -787,8 +805,34 @@ def gen_resp(rng: random.Random, sid: str, focus: str, thorough: bool = False) -
         steps += [{'op': 'at', 't': t}, {'op': 'close'}]
     t += 4000
     steps.append({'op': 'at', 't': t})
-    return {'id': sid, 'seed': rng.randint(0, 10 ** 9), 'steps': steps, 'layout': rng.choice(['single', 'single', 'split']),
+    return {'id': sid, 'seed': rng.randint(0, 10 ** 9), 'steps': steps, 'layout': layout, 'v6src': layout == 'dual' and rng.random() < 0.6,
             'rand': rng.choice([None, None, None, 'lo', 'hi'])}
+
+
+def d22_scenarios(own: str) -> List[dict]:
+    """Directed histories of finding D22 (an instance that listens on an IPv6 socket never recognises its own AAAA records in what
+    it receives): one per symptom, judged by the check of the property it breaks."""
+    sp = service_spec(0, 0, 0, 'dual')
+    q = {'name': sp['host'], 'type': wire.T_AAAA, 'sp': 0}
+    aaaa = rec_of(sp, 'a6')
+    base = [{'op': 'at', 't': 0}, {'op': 'reg', 'svc': sp, 'coop': True}, {'op': 'at', 't': 5000}]
+    out = []
+    for v6src in (False, True):
+        tag = 'v6' if v6src else 'v4'
+        if own == 'C11':
+            # a QU question for the AAAA record 4.5 s after it was announced (a quarter of its TTL is 30 s): unicast alone
+            steps = base + [{'op': 'query', 'qs': [dict(q, qu=True)], 'qid': 0, 'src': '10.0.0.9'}, {'op': 'at', 't': 9000}]
+        elif own == 'C03':
+            # the querier already holds the record with more than half of its TTL: no answer
+            steps = base + [{'op': 'query', 'qs': [dict(q, qu=False), {'name': sp['type'], 'type': wire.T_PTR, 'sp': 0, 'qu': False}],
+                             'qid': 0, 'src': '10.0.0.9',
+                             'known': [{'rec': aaaa, 'ttl': 100}, {'rec': rec_of(sp, 'ptr'), 'ttl': 4000}]}, {'op': 'at', 't': 9000}]
+        else:
+            # asked, answered at once, asked again 300 ms later: not multicast again before the second is over
+            steps = base + [{'op': 'query', 'qs': [dict(q, qu=False)], 'qid': 0, 'src': '10.0.0.9'}, {'op': 'at', 't': 5300},
+                            {'op': 'query', 'qs': [dict(q, qu=False)], 'qid': 1, 'src': '10.0.0.23'}, {'op': 'at', 't': 9000}]
+        out.append({'id': '%s-d22-%s' % (own.lower(), tag), 'seed': 1, 'steps': steps, 'layout': 'dual', 'v6src': v6src, 'rand': None})
+    return out
 
 
 def gen_c09(rng: random.Random, sid: str, thorough: bool = False) -> dict:
